@@ -44,3 +44,16 @@ pub open spec fn shape_rel(t0: Seq<char>, p0: PurlParts, t1: Seq<char>, p1: Purl
     && (!valid_type(t0) ==> r == Err::<(), ParseError>(ParseError::InvalidPackageType))
 }
 
+
+/// C10 / C13 (type string): validating and ASCII-lower-casing twice is doing it once
+pub proof fn lemma_shape_idem(t0: Seq<char>, p0: PurlParts, t1: Seq<char>, p1: PurlParts, t2: Seq<char>, p2: PurlParts, r2: Result<(), ParseError>)
+    requires shape_rel(t0, p0, t1, p1, Ok::<(), ParseError>(())), shape_rel(t1, p1, t2, p2, r2)
+    ensures r2 is Ok, t2 == t1, p2 == p1
+{
+    assert(valid_type(t0));
+    let l = lower_ascii_seq(t0);
+    assert(t1 == l);
+    assert forall|i: int| 0 <= i < l.len() implies type_char(#[trigger] l[i]) && !ascii_upper_c(l[i]) by { assert(type_char(t0[i])); }
+    assert(valid_type(l));
+    lemma_lower_ascii_fixed(l);
+}
